@@ -2,7 +2,37 @@
 
 package main
 
+// File cases: a real RefreshableFileDataSource (real fsnotify watcher, real handler, parser and
+// rule manager) on a temp file, driven through write / truncate / chmod / rename-away (with or
+// without a new file put at the path) / remove.
+//
+// Determinism: every content change is ONE syscall (a write at offset 0 that never shortens the
+// file — contents are padded with trailing spaces —, a truncate to 0, or a rename), so the watcher
+// goroutine can never read a half-written file.  "The file is renamed away and a new file appears
+// before the source re-watches the path" is made deterministic through the clock: the source
+// sleeps (util.Sleep) between re-watch attempts, and the harness's clock creates the new file
+// inside the first Sleep call.  After each operation the harness waits (bounded) for the Handle
+// calls the operation must cause, then polls (bounded) until the rules in force are what the
+// property demands; what is then observed goes to Coq (FCase) and to the monitor.
+//
+// Partial: that fsnotify delivers the events at all, and the bounded waits, are runtime behaviour.
+
 import (
+	"encoding/json"
+	"fmt"
+	"os"
+	"path/filepath"
+	"sort"
+	"strconv"
+	"strings"
+	"sync"
+	"sync/atomic"
+	"time"
+
+	"github.com/alibaba/sentinel-golang/ext/datasource"
+	dsfile "github.com/alibaba/sentinel-golang/ext/datasource/file"
+	"github.com/alibaba/sentinel-golang/util"
+
 	"vh/internal/cli"
 	"vh/internal/emit"
 	"vh/internal/rng"
@@ -10,4 +40,403 @@ import (
 
 const fileBase = 200000
 
-func runFile(a cli.Args, root *rng.R, ms []*module, rep *emit.Report, sh *emit.Shards, only int) {}
+type fopG struct {
+	Op string `json:"op"` // write | truncate | chmod | rename_recreate | rename_away | remove | create_after_close
+	C  int    `json:"content"`
+}
+
+type fcase struct {
+	ID       int      `json:"id"`
+	Module   string   `json:"module"`
+	Mod      int      `json:"-"`
+	Contents []string `json:"contents"` // distinct byte strings the file holds during the case
+	Init     int      `json:"initial_content"`
+	Ops      []fopG   `json:"operations"`
+}
+
+type fobsG struct {
+	Closed  bool     `json:"closed"`
+	InForce []string `json:"in_force"`
+	Handles int      `json:"handle_calls"`
+	Settled bool     `json:"converged_within_bound"`
+}
+
+// countingHandler counts completed Handle calls of the embedded real handler
+type countingHandler struct {
+	*datasource.DefaultPropertyHandler
+	n int64
+}
+
+func (h *countingHandler) Handle(src []byte) error {
+	err := h.DefaultPropertyHandler.Handle(src)
+	atomic.AddInt64(&h.n, 1)
+	return err
+}
+
+// hookClock: the sentinel clock during a file case; Sleep runs a pending action once
+type hookClock struct {
+	util.Clock
+	mu      sync.Mutex
+	pending func()
+	sleeps  int
+}
+
+func (c *hookClock) Sleep(d time.Duration) {
+	c.mu.Lock()
+	f := c.pending
+	c.pending = nil
+	c.sleeps++
+	c.mu.Unlock()
+	if f != nil {
+		f()
+	}
+}
+
+func genFile(r *rng.R, id int, ms []*module) fcase {
+	mi := r.Intn(len(ms))
+	m := ms[mi]
+	c := fcase{ID: id, Module: m.name, Mod: mi}
+	alpha := genPayloads(r, m)
+	idx := map[string]int{}
+	content := func(s string) int {
+		if v, ok := idx[s]; ok {
+			return v
+		}
+		idx[s] = len(c.Contents)
+		c.Contents = append(c.Contents, s)
+		return idx[s]
+	}
+	pad := func(s string, n int) string {
+		if len(s) < n {
+			return s + strings.Repeat(" ", n-len(s))
+		}
+		return s
+	}
+	cur := alpha[0] // a valid rule array
+	c.Init = content(cur)
+	n := 3 + r.Intn(5)
+	closed := false
+	for i := 0; i < n && !closed; i++ {
+		p := alpha[r.Intn(len(alpha))]
+		switch k := r.Intn(100); {
+		case k < 45:
+			if p == "" {
+				if len(cur) == 0 {
+					continue
+				}
+				cur = ""
+				c.Ops = append(c.Ops, fopG{"truncate", content("")})
+			} else {
+				cur = pad(p, len(cur))
+				c.Ops = append(c.Ops, fopG{"write", content(cur)})
+			}
+		case k < 53:
+			c.Ops = append(c.Ops, fopG{"chmod", content(cur)})
+		case k < 78:
+			cur = p
+			c.Ops = append(c.Ops, fopG{"rename_recreate", content(cur)})
+		case k < 86:
+			c.Ops = append(c.Ops, fopG{"rename_away", 0})
+			closed = true
+		default:
+			c.Ops = append(c.Ops, fopG{"remove", 0})
+			closed = true
+		}
+	}
+	if closed && r.Chance(1, 2) {
+		c.Ops = append(c.Ops, fopG{"create_after_close", content(alpha[0])})
+	}
+	return c
+}
+
+func waitUntil(d time.Duration, f func() bool) bool {
+	deadline := time.Now().Add(d)
+	for {
+		if f() {
+			return true
+		}
+		if time.Now().After(deadline) {
+			return false
+		}
+		time.Sleep(500 * time.Microsecond)
+	}
+}
+
+const fileBound = 3 * time.Second
+
+// runF drives the real data source; want(i) is the monitor's ledger (see monitorF) used only to
+// know when to stop polling
+func runF(c fcase, m *module, cls []pcls, dir string) (init fobsG, obs []fobsG, ledger [][]string) {
+	faultArmed = false
+	if err := m.clear(); err != nil {
+		panic(err)
+	}
+	path := filepath.Join(dir, fmt.Sprintf("rules-%d.json", c.ID))
+	os.Remove(path)
+	if err := os.WriteFile(path, []byte(c.Contents[c.Init]), 0o644); err != nil {
+		panic(err)
+	}
+	prev := util.CurrentClock()
+	hc := &hookClock{Clock: prev}
+	util.SetClock(hc)
+	defer util.SetClock(prev)
+	h := &countingHandler{DefaultPropertyHandler: datasource.NewDefaultPropertyHandler(m.parser, m.updater)}
+	ds := dsfile.NewFileDataSource(path, h)
+	if err := ds.Initialize(); err != nil {
+		panic(err)
+	}
+	// the property's ledger: valid rules of a content, kept rules for an undecodable one
+	cur := []string{}
+	apply := func(ci int) {
+		k := cls[ci]
+		switch k.Kind {
+		case "nil":
+			cur = []string{}
+		case "val":
+			w := []string{}
+			for j, e := range k.Elems {
+				if e != "" && k.Valid[j] {
+					w = append(w, e)
+				}
+			}
+			sort.Strings(w)
+			cur = w
+		}
+	}
+	apply(c.Init)
+	init = fobsG{Closed: ds.VerifClosed(), InForce: inForceFPs(m), Handles: int(atomic.LoadInt64(&h.n)), Settled: true}
+	wantClosed := false
+	for _, o := range c.Ops {
+		before := atomic.LoadInt64(&h.n)
+		need := int64(1)
+		switch o.Op {
+		case "write":
+			f, err := os.OpenFile(path, os.O_WRONLY, 0)
+			if err != nil {
+				panic(err)
+			}
+			if _, err := f.WriteAt([]byte(c.Contents[o.C]), 0); err != nil {
+				panic(err)
+			}
+			f.Close()
+			apply(o.C)
+		case "truncate":
+			if err := os.Truncate(path, 0); err != nil {
+				panic(err)
+			}
+			apply(o.C)
+		case "chmod":
+			mode := os.FileMode(0o644)
+			if before%2 == 0 {
+				mode = 0o600
+			}
+			if err := os.Chmod(path, mode); err != nil {
+				panic(err)
+			}
+			apply(o.C)
+		case "rename_recreate":
+			content := []byte(c.Contents[o.C])
+			hc.mu.Lock()
+			hc.pending = func() {
+				tmp := path + ".new"
+				if err := os.WriteFile(tmp, content, 0o644); err != nil {
+					panic(err)
+				}
+				if err := os.Rename(tmp, path); err != nil {
+					panic(err)
+				}
+			}
+			hc.mu.Unlock()
+			if err := os.Rename(path, path+".bak"); err != nil {
+				panic(err)
+			}
+			need = 2
+			cur = []string{}
+			apply(o.C)
+		case "rename_away":
+			if err := os.Rename(path, path+".bak"); err != nil {
+				panic(err)
+			}
+			cur = []string{}
+			wantClosed = true
+		case "remove":
+			if err := os.Remove(path); err != nil {
+				panic(err)
+			}
+			cur = []string{}
+			wantClosed = true
+		case "create_after_close":
+			if err := os.WriteFile(path, []byte(c.Contents[o.C]), 0o644); err != nil {
+				panic(err)
+			}
+			need = 0
+			time.Sleep(20 * time.Millisecond)
+		}
+		settled := waitUntil(fileBound, func() bool { return atomic.LoadInt64(&h.n) >= before+need })
+		want := append([]string{}, cur...)
+		settled = waitUntil(fileBound, func() bool {
+			return sameStrings(inForceFPs(m), want) && ds.VerifClosed() == wantClosed
+		}) && settled
+		obs = append(obs, fobsG{Closed: ds.VerifClosed(), InForce: inForceFPs(m), Handles: int(atomic.LoadInt64(&h.n) - before), Settled: settled})
+		ledger = append(ledger, want)
+	}
+	if !ds.VerifClosed() {
+		ds.Close()
+	}
+	os.Remove(path)
+	os.Remove(path + ".bak")
+	if err := m.clear(); err != nil {
+		panic(err)
+	}
+	return
+}
+
+func monitorF(c fcase, cls []pcls, init fobsG, obs []fobsG, ledger [][]string, rep *emit.Report) {
+	closedWanted := false
+	for i, o := range c.Ops {
+		ob := obs[i]
+		fail := func(sig, detail string) {
+			rep.Fail(c.ID, "C18_file_converges", sig, fmt.Sprintf("%s, operation %d (%s, content %q of class %s): %s", c.Module, i, o.Op, clip(c.Contents[o.C]), cls[o.C].Kind, detail), c)
+		}
+		switch o.Op {
+		case "rename_away", "remove":
+			closedWanted = true
+		}
+		if !sameStrings(ob.InForce, ledger[i]) {
+			sig := "file-datasource-did-not-converge"
+			if closedWanted {
+				sig = "file-datasource-rules-not-cleared-after-removal"
+			}
+			fail(sig, fmt.Sprintf("after %v the rules in force are %v, the file's content demands %v (Handle calls since the operation: %d)", fileBound, ob.InForce, ledger[i], ob.Handles))
+			return
+		}
+		if ob.Closed != closedWanted {
+			fail("file-datasource-closed-state", fmt.Sprintf("closed=%v, expected %v", ob.Closed, closedWanted))
+			return
+		}
+	}
+}
+
+func coqF(c fcase, cls []pcls, init fobsG, obs []fobsG) string {
+	ids := map[string]int{}
+	idOf := func(fp string) int {
+		if v, ok := ids[fp]; ok {
+			return v
+		}
+		ids[fp] = len(ids) + 1
+		return ids[fp]
+	}
+	validSet := map[int]bool{}
+	var tab []string
+	for p, k := range cls {
+		var t string
+		switch k.Kind {
+		case "err":
+			t = "KErr"
+		case "nil":
+			t = "KNil"
+		case "panic":
+			t = "KPanic"
+		default:
+			var es []string
+			for j, e := range k.Elems {
+				if e == "" {
+					es = append(es, "None")
+				} else {
+					id := idOf(e)
+					if k.Valid[j] {
+						validSet[id] = true
+					}
+					es = append(es, fmt.Sprintf("Some %d", id))
+				}
+			}
+			t = fmt.Sprintf("KVal %s %s", emit.B(k.IsNil), emit.List(es))
+		}
+		tab = append(tab, emit.Tuple(strconv.Itoa(p), t))
+	}
+	var valid []string
+	for id := range validSet {
+		valid = append(valid, strconv.Itoa(id))
+	}
+	sort.Strings(valid)
+	fo := func(o fobsG) string {
+		var rs []int
+		for _, fp := range o.InForce {
+			if v, ok := ids[fp]; ok {
+				rs = append(rs, v)
+			} else {
+				rs = append(rs, 9000+len(rs))
+			}
+		}
+		sort.Ints(rs)
+		var rss []string
+		for _, v := range rs {
+			rss = append(rss, strconv.Itoa(v))
+		}
+		return "(FObs " + emit.B(o.Closed) + " " + emit.List(rss) + ")"
+	}
+	var groups, os_ []string
+	for i, o := range c.Ops {
+		switch o.Op {
+		case "write", "truncate", "chmod":
+			groups = append(groups, fmt.Sprintf("[FsWrite %d]", o.C))
+		case "rename_recreate":
+			groups = append(groups, fmt.Sprintf("[FsRenameAway; FsRecreate %d]", o.C))
+		case "rename_away":
+			groups = append(groups, "[FsRenameAway]")
+		case "remove":
+			groups = append(groups, "[FsRemove]")
+		default:
+			groups = append(groups, fmt.Sprintf("[FsRecreate %d]", o.C))
+		}
+		os_ = append(os_, fo(obs[i]))
+	}
+	return fmt.Sprintf("FCase %d %s %s %d %s %s %s", c.ID, emit.List(valid), emit.List(tab), c.Init, emit.List(groups), fo(init), emit.List(os_))
+}
+
+func runFile(a cli.Args, root *rng.R, ms []*module, rep *emit.Report, sh *emit.Shards, only int) {
+	n := a.Pick(0, 30, 400)
+	if a.Search {
+		n *= 3
+	}
+	dir, err := os.MkdirTemp("", "vh-c18-file")
+	if err != nil {
+		panic(err)
+	}
+	defer os.RemoveAll(dir)
+	runOne := func(id int, corr bool) {
+		c := genFile(root.Fork(uint64(id)), id, ms)
+		m := ms[c.Mod]
+		cls := make([]pcls, len(c.Contents))
+		for i, p := range c.Contents {
+			cls[i] = classify(m, p)
+		}
+		init, obs, ledger := runF(c, m, cls, dir)
+		rep.Evaluations++
+		monitorF(c, cls, init, obs, ledger, rep)
+		rep.Count("file_cases", 1)
+		for i, o := range c.Ops {
+			rep.Count("file_op_"+o.Op, 1)
+			rep.Count("file_content_class_"+cls[o.C].Kind, 1)
+			if !obs[i].Settled {
+				rep.Count("file_op_not_settled_within_bound", 1)
+			}
+		}
+		if corr && sh != nil {
+			sh.Add(c.ID, coqF(c, cls, init, obs))
+			rep.CorrCases++
+			rep.CaseInputs[strconv.Itoa(c.ID)] = c
+		}
+		if only >= 0 {
+			out, _ := json.MarshalIndent(map[string]interface{}{"input": c, "initial": init, "observed": obs, "demanded": ledger, "coq": coqF(c, cls, init, obs)}, "", " ")
+			fmt.Println(string(out))
+		}
+	}
+	if only >= 0 {
+		runOne(only, false)
+		return
+	}
+	for i := 0; i < n; i++ {
+		runOne(fileBase+i, !a.Search)
+	}
+}
